@@ -273,6 +273,32 @@ Definition unquote (v : string) : string := substring 1 (String.length v - 2) v.
 Definition bin_class (ty : string) : option bclass :=
   match pt_bin T ty with Some (c, _, _) => Some c | None => None end.
 
+(* Besides terminals, unary and binary nodes and ite, the fragment contains
+   the two forms of ast.Nodes.Operator.flatten that print concrete syntax:
+     Opr op [Opr "params" vs; body]   op = \A or \E, lexed as FORALL / EXISTS;
+                                      vs a NON-EMPTY list of binders, each a
+                                      tree of the fragment (the parser reads a
+                                      list of expressions there: variables x,
+                                      primed variables ( X x ), ...)
+     Opr "LET" [Lst ds; body]         ds a NON-EMPTY list of definitions
+                                      Bin CBinary "==" (Term KOpname name) e
+                                      with e in the fragment
+   and in both the body is in the fragment. *)
+(* every element of l satisfies P (a fixpoint, so that it can be used inside
+   the definition of a predicate on the nested type `tree`) *)
+Definition allP (P : tree -> Prop) : list tree -> Prop :=
+  fix all (l : list tree) : Prop :=
+    match l with
+    | [] => True
+    | x :: r => P x /\ all r
+    end.
+(* a definition of LET as the parser builds it, its body satisfying P *)
+Definition def_okP (P : tree -> Prop) (d : tree) : Prop :=
+  match d with
+  | Bin CBinary o (Term KOpname _) e => o = "==" /\ P e
+  | _ => False
+  end.
+
 Fixpoint flat_ok (t : tree) : Prop :=
   match t with
   | Term KVar _ => True
@@ -286,27 +312,26 @@ Fixpoint flat_ok (t : tree) : Prop :=
   | Bin c op l r =>
       bin_class (tty (optok op)) = Some c /\ tval (optok op) = op
       /\ flat_ok l /\ flat_ok r
-  | Opr op [a; b; c] =>
-      tty (optok op) = "ITE" /\ tval (optok op) = op
-      /\ flat_ok a /\ flat_ok b /\ flat_ok c
-  | Opr _ _ => False
+  | Opr op args =>
+      match args with
+      | [a; b; c] =>
+          tty (optok op) = "ITE" /\ tval (optok op) = op
+          /\ flat_ok a /\ flat_ok b /\ flat_ok c
+      | [p; body] =>
+          match p with
+          | Opr po vs =>
+              (op = "\A" \/ op = "\E") /\ po = "params"
+              /\ (tty (optok op) = "FORALL" \/ tty (optok op) = "EXISTS")
+              /\ tval (optok op) = op
+              /\ vs <> [] /\ allP flat_ok vs /\ flat_ok body
+          | Lst ds =>
+              op = "LET" /\ tty (optok op) = "LET" /\ tval (optok op) = op
+              /\ ds <> [] /\ allP (def_okP flat_ok) ds /\ flat_ok body
+          | _ => False
+          end
+      | _ => False
+      end
   | Lst _ => False
-  end.
-
-(* the fully parenthesised surface tree that `flatten` prints *)
-Fixpoint embed (t : tree) : stree :=
-  match t with
-  | Term KVar v => SAtom (AVar v)
-  | Term KOpname v => SAtom (AVar v)
-  | Term KBool v => SAtom (ABool (optok v))
-  | Term KNum v =>
-      if is_neg v then SAtom (ANum (NNeg (tail_str v))) else SAtom (ANum (NPos v))
-  | Term KStr v => SAtom (AStr (unquote v))
-  | Un op x => SParen (SPre (optok op) (embed x))
-  | Bin _ op l r => SParen (SBin (optok op) (embed l) (embed r))
-  | Opr op [a; b; c] => SIte (optok op) (embed a) (embed b) (embed c)
-  | Opr _ _ => SAtom (AVar "")
-  | Lst _ => SAtom (AVar "")
   end.
 
 End Spec.
